@@ -30,6 +30,10 @@ type Prop struct {
 	Gen func(g *Gen)
 	// Run executes one case against the real code and judges it.
 	Run func(c interface{}, r *Rec)
+	// AltArch: if true and VERIF_BIN_ALT names a second build of the harness
+	// (e.g. GOARCH=386), the driver runs additional workers from it; its
+	// Gen may emit a different case list (it sees its own runtime.GOARCH).
+	AltArch bool
 	// Setup, if non-nil, is called once per process before Gen/Run.
 	Setup func(tier string, seed int64)
 }
